@@ -628,6 +628,43 @@ def rule_intdiv(ctx, tu):
     ctx.floor(R, 6)
 
 
+# float -> int conversions of the engine that were read and found bounded: (function, converted expression) -> reason
+FPCAST_OK = {
+    ("GenerateStochasticDistribution", "dtot_species[s]"):
+        "difference between the drawn and the floored total of one species: of the order of the square root of the total, "
+        "outside the int range only for totals no double can count exactly",
+}
+
+
+def rule_fpcast(ctx, tu):
+    """C11.FPCAST -- converting a floating-point value to an integer type is undefined when the value does not fit.  Amounts,
+    propensities and times of the engine are doubles without an upper bound (a state written in pmol holds 1e12 molecules per
+    cell), so every such conversion must be of a quantity that is bounded by construction; the ones on the pinned tree were read
+    and are listed with their reason."""
+    R = "C11.FPCAST"
+    n = 0
+    seen = set()
+    for f in tu.all_fns():
+        if f.body is None:
+            continue
+        for x in walk(f.body):
+            if x.get("castKind") != "FloatingToIntegral":
+                continue
+            inner = kids(x)[0] if kids(x) else x
+            key = (f.qual, cxa.canon(inner))
+            if key in seen:
+                continue
+            seen.add(key)
+            n += 1
+            lit = strip(inner, casts=True).get("kind") == "FloatingLiteral"
+            ok = lit or key in FPCAST_OK or (f.qual, text(inner)) in FPCAST_OK
+            ctx.check(ok, R, x, f.qual, "int(%s)" % text(inner)[:50], FPCAST_OK.get(key, "bounded by construction"),
+                      "`%s` is converted to an integer type: the conversion is undefined once the value exceeds the integer "
+                      "range (2^31 - 1 molecules in one cell is 3.6 fmol), and nothing bounds it" % text(inner)[:50])
+    ctx.ok(R, None, "engine", "%d float -> int conversions examined" % n, "each bounded by construction")
+    ctx.floor(R, 1)
+
+
 def rule_env_range(ctx, py, tu):
     """C11.ENV-RANGE -- the engine indexes its per-environment tables (k, D) with the values of mesh_env.  Those values are
     validated against the network's environment list (C20.EXTIDX), so the table extent handed over as n_env must be the length of
@@ -700,6 +737,7 @@ def run(ctx):
     ffi.rule_extent(ctx, "C11.FFI-EXTENT", I, ptr_req)
     rule_env_range(ctx, ctx.py, tu)
     rule_intdiv(ctx, tu)
+    rule_fpcast(ctx, tu)
     # shared clause: the index data the engine subscripts with (cell environments, edge end points) is range-checked on the
     # Python side, both ends of the range (C20.EXTIDX)
     from . import c20 as _c20
